@@ -41,7 +41,7 @@ def prepare(tier):
 
 
 LACKEY_OPS = [("x25519", "avx512f", "sandy2x ladder.S"), ("x25519_base", "avx512f", "sandy2x ladder_base.S"), ("salsa20_xor", "avx512f,avx2", "salsa20 xmm6 .S"),
-              ("poly1305", "avx512f", "gcc binary, SSE2"), ("xsalsa20_xor", "avx512f,avx2", "salsa20 xmm6 .S"), ("sign", "avx512f", "gcc binary, ref10"),
+              ("poly1305", "avx512f", "gcc binary, SSE2"), ("mac_verify", "avx512f", "gcc binary + libc: all MAC verify wrappers"), ("secretbox_open", "avx512f", "gcc binary: forged box"), ("xsalsa20_xor", "avx512f,avx2", "salsa20 xmm6 .S"), ("sign", "avx512f", "gcc binary, ref10"),
               ("ed25519_mult", "avx512f", "gcc binary, ref10")]
 
 
@@ -76,7 +76,7 @@ def lackey_pass(tier):
     res = common.Result()
     exe = os.path.join(build.build("native"), "h_c11asm")
     build.link_harness("native", exe, [os.path.join(common.VERIF, "harness", "c11_asm.c")])
-    ops = LACKEY_OPS[:4] if tier == "quick" else LACKEY_OPS
+    ops = LACKEY_OPS[:6] if tier == "quick" else LACKEY_OPS
     with ThreadPoolExecutor(max_workers=len(ops)) as ex:
         outs = list(ex.map(lackey_one, [(exe, o, c, w) for o, c, w in ops]))
     summary = []
